@@ -122,6 +122,13 @@ CHECKS["C18"] = dict(
     note="Multiplicity is bounded, not fixed; wording beyond the named fields is not compared.",
 )
 
+CHECKS["C17"] = dict(
+    cat="model_checking", ref="DESIGN.md §3 C17",
+    technique="explicit-state BFS over the product of the live fortran_file_source / c_file_source generator states (read from their frames) and a reference free-form scanner, one transition = one physical line; plus exhaustive enumeration of all short texts through fortran_file_source and FileParser, and the C01 conditional universe re-run on .F90 files",
+    text="Every reachable product state under all physical lines of <=4 symbols is visited on the real generators and the counted / directive line sets compared at every transition and at end of file; all texts up to 6/7 symbols are enumerated; every conditional program with <=4/5 directives x 10 configurations is analysed in a .F90 file and must select lines exactly as the reference machine (validated against gcc in C01).",
+    note="Alphabet {a blank ! & ' \" $ / # newline}; backslash splicing in Fortran text, '##' lines and continuation text starting with '#' are excluded; language inheritance of included headers is reported as information only.",
+)
+
 PENDING = {}
 
 
